@@ -90,6 +90,18 @@ def check_case(ctx, c):
             return [("combine:raised", "combine raised %r for runs=%s mult=%s" % (ex, runs, mult))]
         if snap.changed():
             out.append(("combine:mutated", "combining modified its arguments (runs=%s mult=%s)" % (runs, mult)))
+        # per-copy results of another mapping type (a backend returns collections.Counter objects): the same totals, twice
+        import collections
+
+        countsC = [collections.Counter(d_) for d_ in countsB]
+        keepC = [dict(d_) for d_ in countsC]
+        try:
+            gotC1 = combine_measurement_counts(countsC, mult)
+            gotC2 = combine_measurement_counts(countsC, mult)
+            if [dict(x) for x in gotC1] != [dict(x) for x in gotB] or [dict(x) for x in gotC2] != [dict(x) for x in gotB] or [dict(d_) for d_ in countsC] != keepC:
+                out.append(("combine:counter-inputs", "per-copy results given as Counter objects (runs=%s mult=%s): first combination %s, second %s, with dictionaries %s; the inputs afterwards %s" % (runs, mult, gotC1, gotC2, gotB, countsC)))
+        except Exception as ex:
+            out.append(("combine:counter-inputs:raised", "combining Counter results raised %r" % ex))
         if [dict(x) for x in againA] != [dict(x) for x in gotA] or [list(x) for x in againS] != [list(x) for x in gotS]:
             out.append(("combine:twice", "combining the same per-copy results a second time gave %s, first %s" % (againA, gotA)))
         if [dict(x) for x in gotShared] != [{"0" * width: m} for m in mult] or shared != {"0" * width: 1}:
